@@ -449,6 +449,7 @@ def _c15():
          leg("vtbb-seq8", "c15_nodes", (1, 1), {"only": "seq", "depth": 8}, flags=(), what="all operation sequences of length 8 (ring wrap and growth of the item buffer)", tiers=("quick",)),
          leg("vtbb-seq10", "c15_nodes", (1, 1), {"only": "seq", "depth": 10}, flags=(), what="all operation sequences of length 10", tiers=("thorough",), weight=3.0)]
     for k, b, what in [("limiter", (2, 3), "queue -> limiter(1) -> node -> decrementer, three messages"), ("limiter_ext", (1, 2), "same with a second putting thread"),
+                       ("limiter_push", (2, 3), "a direct put is in flight inside a slow lightweight successor while the limiter's forward task serves a queued pull-mode predecessor"),
                        ("joinq", (1, 2), "queueing join_node, the two ports fed by two threads"), ("joink", (1, 2), "key_matching join_node, keys arrive in opposite orders"),
                        ("joinr", (1, 2), "reserving join_node behind two queue_nodes"), ("seq", (1, 2), "sequencer_node fed out of order by two threads")]:
         L.append(leg("rt-" + k, "c14_rt", b, {"kind": k}, what="real scheduler: " + what, weight=2.0))
